@@ -209,7 +209,7 @@ func (c *Ctx) checkMarshalOf(pj *simdjson.ParsedJson, nd bool, info map[string]i
 
 func checkC10(c *Ctx) {
 	r := c.Rng
-	c.Ev.Coverage.Rule = "tapes from Parse and ParseND (strings containing every byte value raw or escaped, all number boundary values, deep and wide documents), optionally edited in place by random Set*/Delete histories; MarshalJSON from the root iterator: output accepted by the parser and by the Coq specification, denotes the same document (strings byte-equal, numbers numerically equal), re-marshal reproduces it byte for byte, non-finite floats give an error; output equal to the modelled MarshalJSON of the same tape; restricted element iterators (AdvanceIter) and Array.MarshalJSON at every value position of small documents compared with the model. non-trivial = marshalled document; distinct = by (document, edits)"
+	c.Ev.Coverage.Rule = "tapes from Parse and ParseND (strings containing every byte value raw or escaped, all number boundary values, deep and wide documents), optionally edited in place by random Set*/Delete histories; MarshalJSON from the root iterator: output accepted by the parser and by the Coq specification, denotes the same document (strings byte-equal, numbers numerically equal), re-marshal reproduces it byte for byte, non-finite floats give an error; output equal to the modelled MarshalJSON of the same tape; the iterators ParsedJson.ForEach hands out (one per root) against the root iterator's lines; restricted element iterators (AdvanceIter, and the same value through Object.Parse / NextElementBytes) and Array.MarshalJSON at every value position of small documents compared with the model and with each other. non-trivial = marshalled document; distinct = by (document, edits)"
 	var reqs []string
 	var pends []func(string)
 	n := c.N(1500, 20000)
@@ -306,6 +306,35 @@ func checkC10(c *Ctx) {
 		}
 		c.checkMarshalOf(out.PJ, nd, info, &reqs, &pends)
 		c.Ev.Count("marshal-root", append([]byte(fmt.Sprint(info["history"])), doc...), true)
+		// the iterators ParsedJson.ForEach hands out, one per root: each marshals to that root's
+		// line of the root iterator's output (judged without the model)
+		{
+			rit := out.PJ.Iter()
+			if whole, werr, wpan := safeMarshal(rit); werr == nil && wpan == "" {
+				var lines []string
+				ferr := func() (e error) {
+					defer func() {
+						if rr := recover(); rr != nil {
+							e = fmt.Errorf("panic: %v", rr)
+						}
+					}()
+					return out.PJ.ForEach(func(it simdjson.Iter) error {
+						b, err := it.MarshalJSON()
+						if err != nil {
+							return err
+						}
+						lines = append(lines, string(b))
+						return nil
+					})
+				}()
+				if ferr != nil || strings.Join(lines, "\n") != string(whole) {
+					c.Violate("marshal", "MarshalJSON of the iterators ParsedJson.ForEach hands out differs from the root iterator's output", "marshal-foreach-iter",
+						map[string]interface{}{"doc_hex": info["doc_hex"], "doc_text": info["doc_text"], "history": info["history"], "foreach": trunc(strings.Join(lines, "\n"), 300), "root": trunc(string(whole), 300), "error": fmt.Sprint(ferr)})
+				}
+				c.Ev.Count("marshal-foreach-iterator", append([]byte(fmt.Sprint(info["history"])), doc...), true)
+			}
+		}
+		// restricted element iterators and Array.MarshalJSON on small documents
 		// restricted element iterators and Array.MarshalJSON on small documents
 		if len(out.PJ.Tape) < 120 && i%2 == 0 {
 			pos, _ := flatPositions(out.PJ, 400)
@@ -337,6 +366,16 @@ func checkC10(c *Ctx) {
 					}
 				})
 				c.Ev.Count("marshal-element", []byte(fmt.Sprint(k, st)), true)
+				// the same value reached through the other APIs that hand out an iterator cut to the
+				// element (Object.Parse, NextElementBytes, per level) marshals to the same text
+				if aerr == nil && strings.HasPrefix(impl, "ok ") {
+					if it2, ok := iterByPathMode(out.PJ, p.Path, r.Intn(1<<10), true); ok {
+						if o2, e2, pan2 := safeMarshal(it2); pan2 != "" || e2 != nil || "ok "+hexOrDash(o2) != impl {
+							c.Violate("marshal", "MarshalJSON of an element iterator (Parse/NextElementBytes route) differs from the AdvanceIter route on the same value", "marshal-element-route",
+								map[string]interface{}{"doc_text": info["doc_text"], "history": info["history"], "position": k, "route": trunc(fmt.Sprint("ok ", hexOrDash(o2), e2, pan2), 300), "adviter": trunc(impl, 300)})
+						}
+					}
+				}
 				if p.Tag == simdjson.TagArrayStart {
 					ai := iterAt(out.PJ, k)
 					implA := "err"
